@@ -96,7 +96,7 @@ ImplValueP == IF First THEN TRUE ELSE
     (St.op[1] = "value" => LET ss == St.op[2] r == o[ss] IN
         \A q \in 1..Len(St.values) : St.values[q] = Eval(IsSpin(r.kind), PolyOf(r.ts), ToSet(St.op[3])))
 \* create_from_info(get_info(M)) reproduces type, terms, name, mapping, ancilla count and constraints (C19)
-ConsOf(sl) == [q \in 1..Len(sl.cons) |-> <<sl.cons[q][1], FromRaw(IsSpin(sl.kind), sl.cons[q][2])>>]
+ConsOf(sl) == [q \in 1..Len(sl.cons) |-> <<sl.cons[q][1], FromRaw(IsSpin(sl.kind), sl.cons[q][2]), sl.cons[q][3]>>]  \* relation, polynomial, class
 ImplInfoSameP == IF First THEN TRUE ELSE
     (St.op[1] = "info" => LET a == Steps[l - 1].slots[St.op[2]] b == Steps[l - 1].slots[St.op[3]] IN
         /\ b.kind = a.kind /\ FromRaw(IsSpin(a.kind), b.ts) = FromRaw(IsSpin(a.kind), a.ts) /\ b.name = a.name
